@@ -26,7 +26,8 @@ RULE = ("one evaluation = one instantiated package with 1-3 argument strings, ea
         "spelling of one reference is a proper substring of the spelling another one is written with: producer names "
         "that are suffixes of each other, `stage<i>.X:ref` vs the relative `X:ref` of a same-named component of the "
         "consumer's stage, `A/input/f.txt:ref` vs `input/f.txt:ref`, ...), or one reference written in both "
-        "spellings; distinct = distinct (argument string, declaration lists) values.")
+        "spellings, or an `output` file whose text contains the spelling of a declared reference; distinct = distinct "
+        "(argument string, declaration lists) values.")
 ASSUMPTIONS = [
     "only `ref` and `output` references occur in argument strings (resolveArguments documents every other `:method` "
     "in a command line as unsupported); copy/link/copyout/extract references are declared only. DoWhile "
@@ -152,10 +153,10 @@ def _check_group(case, g, group, graph, inst, ctx: Ctx):
         ctx.rec.label("has-declared-only-reference")
     for kind in sorted({_overlap_kind(a, b) for a, b in feats["overlaps"]}):
         ctx.rec.label("overlap:" + kind)
-    if feats["overlaps"] or feats["mixed"]:
+    if feats["overlaps"] or feats["mixed"] or feats["rescans"]:
         decls = [d for d, _, _ in results]
         ctx.rec.nt([args, decls], {"arguments": args, "declared": decls, "overlaps": feats["overlaps"][:4],
-                                   "mixed": bool(feats["mixed"]), "expected": want.replace(inst, "$I")},
+                                   "mixed": bool(feats["mixed"]), "content_mentions": feats["rescans"][:2], "expected": want.replace(inst, "$I")},
                    group="resolve")
 
 
